@@ -196,7 +196,7 @@ def run_plan(seed, op, who, plan, pre=None, post_check=True):
         out = outcome(do_op, psutil, op, obj)
     finally:
         w.hook = None
-    extra = {}
+    extra = {"objpid": n[who] if who is not None else None}
     faulted_vanish = {hook.accesses[i][2] for i, d in hook.applied if d == "vanish"}
     if post_check and obj is not None and obj.pid not in faulted_vanish and obj.pid in w.procs and w.procs[obj.pid].zombie \
             and any(d == "zombie" and hook.accesses[i][2] == obj.pid for i, d in hook.applied):
@@ -242,6 +242,9 @@ def alts_for(run, i):
         # second fault: the statement quantifies over the two-fault sequences (deny at i, vanish at j > i)
         if run.plan[-1][1] in ("eacces", "eperm"):
             return ("vanish",)
+        objpid = (run.extra or {}).get("objpid")
+        if run.plan[-1][1] == "vanish" and objpid is not None and pid == objpid and run.accesses[run.plan[-1][0]][2] != objpid:
+            return ("vanish",)        # a relative went away, and then the very process the object stands for
         if run.plan[-1][1] in ("zombie", "halfgone", "dying", "nofile") and pid == run.accesses[run.plan[-1][0]][2]:
             return ("vanish",)        # ... and a process that is on its way out (zombie, entries going) is then reaped for good
         return ()
@@ -546,7 +549,8 @@ def run(ctx):
                 b = bound_default
                 if not ctx.thorough and (op in ("m:name", "m:exe", "m:open_files", "m:threads", "children", "parent", "m:memory_full_info",
                                                 "conn:all", "m:ppid", "m:cwd", "m:environ", "m:memory_info", "m:uids", "m:cmdline")
-                                         or d in ("zombie", "halfgone", "dying", "nofile")):
+                                         or d in ("zombie", "halfgone", "dying", "nofile")
+                                         or op in ("parents", "children_r")):
                     b = 2      # quick: pairs for the short, fallback-rich operations, and "on its way out, then reaped" everywhere
                 tasks.append((seed, op, who, (i, d), b))
     if ctx.thorough:
